@@ -910,6 +910,10 @@ def _merge(ctx, packs, label):
 
 
 def run(ctx):
+    from .. import tie
+
+    # translation tie: Lean definitions regenerated from /repo's source + equality theorems with the model
+    ctx.tie = tie.run_tie(ctx, tie.FUNCTIONS["C17"])
     seed = ctx.seed
     use_lean = bool(ctx.driver_ok)
     if use_lean:
